@@ -88,7 +88,8 @@ CLAIMS['C06'] = {
             'the result at most once and sets done exactly once, atomically and afterwards; '
             'Task.__await__ returns/raises the stored result; cancel distinguishes '
             'finished/created/running with the right registration order, target, token '
-            'plumbing; only genuine failures report failed=True; the not-started predicate '
+            'plumbing; only genuine failures report failed=True; the payload closed only '
+            'where a missing `.close` is tolerated; the not-started predicate '
             'is sound for this interpreter (compile+dis of a sample coroutine, nothing run). '
             'What user payloads do with a CancelTask they catch is not decided.',
     'note': _NOTE,
@@ -101,7 +102,8 @@ CLAIMS['C04'] = {
             'after testing the live list empty after its last suspension; closing loops '
             'iterate copies; do() registers/refuses correctly and __child_finished__ agrees '
             'on the list; every way through _disable_interrupts of each scope class marks the '
-            'scope closed and withdraws its own signals; the wrapper reports exactly once; '
+            'scope closed and withdraws its own signals; the wrapper reports exactly once and '
+            'nothing escapes it; unsubscribing what was subscribed cannot fail (rule of C03); '
             'Task.__close__ handles started and '
             'unstarted tasks; forced-close discipline over all 75 suspension-capable '
             'function/receiver pairs. That user payloads do not swallow GeneratorExit is '
@@ -118,7 +120,9 @@ CLAIMS['C05'] = {
             '_is_suppressed per receiver and per class of pending exception (foreign '
             'exceptions never swallowed nor replaced by Concurrent, own signal absorbed or '
             'replaced); promptness chain failed child -> __cancel__ -> undated own signal; '
-            'SUPPRESS/PROMOTE tables. Identity and order of failures as run-time values follow '
+            'SUPPRESS/PROMOTE tables; a failing child is recorded whatever state the scope '
+            'is in; the closing sequence on every exit and no walk over the live child list '
+            'while children are closed (rules shared with C04). Identity and order of failures as run-time values follow '
             'only together with the loop FIFO (C02) and are not decided here.',
     'note': _NOTE,
 }
@@ -190,7 +194,9 @@ CLAIMS['C14'] = {
             'form, the yielded value being the clock re-read after the wait, the three-way '
             'sign split (raise / suspend / postpone) with its guards on every path, early '
             'rejection of negative periods, must-yield for every step and positivity of the '
-            'delays handed to suspend. The tick grid as numbers (float accumulation) is not '
+            'delays handed to suspend; the wake-up of the pause primitives withdrawn on '
+            'every exit and StateHandler.assign restoring the clock of this simulation after '
+            'a nested run (rules shared with C03/C15). The tick grid as numbers (float accumulation) is not '
             'decided.',
     'note': _NOTE,
 }
@@ -201,7 +207,9 @@ CLAIMS['C16'] = {
             'the scope, one FIFO queue sliced by count, yield inside the scope), plus the '
             'path rule that closing first() at its yield runs Scope.__aexit__(GeneratorExit) '
             'without suspending, must-yield, the closing sequence on every exit of the scope '
-            'and its absorbing only its own cancellation. Result times are not decided.',
+            'and its absorbing only its own cancellation, Task.__close__ stopping started and '
+            'unstarted activities alike, and the pairing of the subscription context a closed '
+            'activity leaves. Result times are not decided.',
     'note': _NOTE,
 }
 
@@ -215,7 +223,9 @@ CLAIMS['C15'] = {
             'assign() restores the saved loop on every path incl. exceptions at its yield; '
             'Loop.run/usim.run shapes; _run_events leaves only on an empty wait queue; the '
             'kernel handles StopIteration only (ActivityLeak iff a value was returned); roots '
-            'queued in order at start. Real thread interleavings are not explored: they are '
+            'queued in order at start; the `till` deadline notified at once exactly when it '
+            'already holds, and failures of children recorded also while the deadline closes '
+            'the scope (rules shared with C07/C05). Real thread interleavings are not explored: they are '
             'made irrelevant by the confinement that is checked.',
     'note': _NOTE,
 }
@@ -239,7 +249,8 @@ CLAIMS['C17'] = {
             'formula by truth table over its (quantified) atoms, so any equivalent '
             'arrangement passes; the return-path table of __subclasscheck__; delegation of '
             '__instancecheck__; normalisation/caching through frozenset keys; specialisation '
-            'by child types; flattened(). The except-clause disagreement (language semantics) '
+            'by child types; flattened(); the predicate reached only when neither class is the '
+            'bare one (F14, repaired). The except-clause disagreement (language semantics) '
             'is a genuine defect recorded as known finding. The predicate is finite, so '
             'nothing else is left undecided.',
     'note': _NOTE,
@@ -251,7 +262,8 @@ CLAIMS['C19'] = {
             'nor stricter) or by exception evidence; mutated <=> succeed <=> True on every '
             'path; Put/Get mirror images, cancel and Request.__exit__; policy queues only '
             'mutated in place, served prefix removed exactly, (priority, time) key, '
-            'pre-emption conditions; store disciplines; no request-dependent _do_get behind a '
+            'pre-emption conditions and the Preempted details told to the victim; store '
+            'disciplines; no request-dependent _do_get behind a '
             'prefix-stopping trigger. Levels/contents after a history and grant times are '
             'not decided.',
     'note': _NOTE,
